@@ -233,12 +233,16 @@ class TwoArgError(Exception):
 
 def is_transient(kind):
     """kind 7: the connection drops on the first two attempts only - the retries heal it, the task succeeds"""
-    return kind % 8 == 7
+    return kind % 9 == 7
 
 
 def task_error(kind, x):
     """the exceptions tasks fail with: differently shaped .args (a syscall error has two, some have none); all name the id"""
-    k = kind % 8
+    k = kind % 9
+    if k == 8:
+        class LocalError(Exception):      # an exception class defined inside a function (cannot be pickled by reference)
+            pass
+        return LocalError("boom-%s" % x)
     if k in (5, 7):
         return BrokenPipeError("boom-%s" % x)          # a dropped connection: the task is retried net_retry times (kind 7 heals)
     if k == 6:
@@ -254,7 +258,7 @@ def task_error(kind, x):
     return UnicodeDecodeError("utf-8", b"boom-%d" % x, 0, 1, "boom-%s" % x)
 
 
-def run_case(n, par, max_tasks, fail_ids, tolerate, choices, consumer_delays, use_run=False, max_steps=None, unpicklable_ids=(), fail_kind=0, callback=None, gen_task=False):
+def run_case(n, par, max_tasks, fail_ids, tolerate, choices, consumer_delays, use_run=False, max_steps=None, unpicklable_ids=(), fail_kind=0, callback=None, gen_task=False, partial_task=False):
     """runs Parallel(f).irun(range(n)) under the schedule; returns a dict describing the outcome"""
     import annet.parallel as P
     logging.disable(logging.CRITICAL)
@@ -296,7 +300,11 @@ def run_case(n, par, max_tasks, fail_ids, tolerate, choices, consumer_delays, us
     with _lock:
         P.mp, P.time, P.os = fake.mp, fake.time, _FakeOs()
         try:
-            pool = P.Parallel(f).tune(parallel=par, max_tasks=max_tasks)
+            if partial_task:
+                import functools
+                pool = P.Parallel(functools.partial(lambda pad, x: f(x), "pad")).tune(parallel=par, max_tasks=max_tasks)
+            else:
+                pool = P.Parallel(f).tune(parallel=par, max_tasks=max_tasks)
             if callback and callback.get("progress_logger"):
                 from annet.api import PoolProgressLogger    # what api.gen/diff/patch register for --show-hosts-progress
                 pool.add_callback(PoolProgressLogger({i: "h%d" % i for i in range(n)}))
